@@ -279,6 +279,52 @@ Check C17_scalar_literal_old_refuted :
   (exists s d, xv_exec_valid xv_apollo_params s d = true /\ xk_old_r_values_correct_type s d = false).
 Print Assumptions C17_scalar_literal_old_refuted.
 
+(* A third repaired deviation (validation/operation.rs validate_subscription, fixes/fix2-c17-1.patch): the root
+   selection set of a subscription was walked through inline fragments and named fragments whatever their type
+   conditions.  The repaired code follows xv_exec_valid (CollectFields consults DoesFragmentTypeApply; apollo's
+   own rule against @skip/@include at the root reads the same walk), carried by the tie with no class filtering
+   it; the deviation as it was (Exec/Known.v: xk_old_r_subscription_single_root, xk_old_r_subscription_no_skip_include)
+   differs from the specification on the former witness `subscription { b ... on I { ... on O { c } } }` (one root
+   field, was rejected as two) and on `subscription { b ... on I { ...F } } fragment F on O { c @skip(if: true) }`. *)
+Theorem C17_subscription_conditions_old_refuted :
+  (exists s d, xv_exec_valid xv_apollo_params s d = true /\
+               xk_old_r_subscription_single_root xv_apollo_params s d = false) /\
+  (exists s d, xv_exec_valid xv_apollo_params s d = true /\
+               xk_old_r_subscription_single_root xv_apollo_params s d = false /\
+               xk_old_r_subscription_no_skip_include xv_apollo_params s d = false).
+Proof. exact kx_subscription_old_refuted. Qed.
+Check C17_subscription_conditions_old_refuted :
+  (exists s d, xv_exec_valid xv_apollo_params s d = true /\
+               xk_old_r_subscription_single_root xv_apollo_params s d = false) /\
+  (exists s d, xv_exec_valid xv_apollo_params s d = true /\
+               xk_old_r_subscription_single_root xv_apollo_params s d = false /\
+               xk_old_r_subscription_no_skip_include xv_apollo_params s d = false).
+Print Assumptions C17_subscription_conditions_old_refuted.
+
+(* A fourth repaired deviation, D12d (validation/value.rs value_of_correct_type, fixes/fix2-c17-2.patch): a variable
+   nested inside a list or input-object literal was compared with its position only by the innermost named type.
+   The repaired code applies IsVariableUsageAllowed with the type of the list item / input field and the field's
+   default, as xv_r_variable_usages_allowed does (carried by the tie, no class filters it any more).  The verdict as
+   it was (Exec/Known.v: xk_old_exec_valid_nested_variable) accepted, against the specification, the former witness
+   `query($v: [Int]) { f(j: [$v]) }` with `j: [Int]`, and `query($v: Int) { f(j: {x: $v}) }`,
+   `query($v: Int = null) { f(j: {x: $v}) }` with `x: Int!`. *)
+Theorem C17_nested_variable_old_refuted :
+  (exists s d, xv_r_variable_usages_allowed s d = false /\ xv_exec_valid xv_apollo_params s d = false /\
+               xk_old_exec_valid_nested_variable xv_apollo_params s d = true) /\
+  (exists s d, xv_r_variable_usages_allowed s d = false /\ xv_exec_valid xv_apollo_params s d = false /\
+               xk_old_exec_valid_nested_variable xv_apollo_params s d = true) /\
+  (exists s d, xv_r_variable_usages_allowed s d = false /\ xv_exec_valid xv_apollo_params s d = false /\
+               xk_old_exec_valid_nested_variable xv_apollo_params s d = true).
+Proof. exact kx_nested_variable_old_refuted. Qed.
+Check C17_nested_variable_old_refuted :
+  (exists s d, xv_r_variable_usages_allowed s d = false /\ xv_exec_valid xv_apollo_params s d = false /\
+               xk_old_exec_valid_nested_variable xv_apollo_params s d = true) /\
+  (exists s d, xv_r_variable_usages_allowed s d = false /\ xv_exec_valid xv_apollo_params s d = false /\
+               xk_old_exec_valid_nested_variable xv_apollo_params s d = true) /\
+  (exists s d, xv_r_variable_usages_allowed s d = false /\ xv_exec_valid xv_apollo_params s d = false /\
+               xk_old_exec_valid_nested_variable xv_apollo_params s d = true).
+Print Assumptions C17_nested_variable_old_refuted.
+
 (* ---------- non-vacuity and witnesses ---------- *)
 Definition ex_A : str := [65]. Definition ex_B : str := [66]. Definition ex_C : str := [67].
 Definition ex_Q : str := [81]. Definition ex_f : str := [102]. Definition ex_a : str := [97]. Definition ex_v : str := [118].
@@ -312,14 +358,14 @@ Definition ex_schema : schema :=
                             fd_args := [ {| iv_desc := None; iv_name := ex_a; iv_ty := TList (TNamed xs_Int);
                                             iv_default := None; iv_dirs := [] |} ];
                             fd_ty := TNamed xs_Int; fd_dirs := [] |} ] false ] |}.
-(* query($v: [Int]) { f(a: [$v]) } : the class of D12d *)
+(* query($v: [Int]) { f(a: [$v]) } : the former class of D12d (repaired: C17_nested_variable_old_refuted) *)
 Definition ex_doc_d12d : document :=
   [ DOperation OpQuery None [ {| v_name := ex_v; v_ty := TList (TNamed xs_Int); v_default := None; v_dirs := [] |} ] []
       [ SField None ex_f [ (ex_a, VList [VVar ex_v]) ] [] [] ] ].
-Example C17_known_class_d12d_witness :
+Example C17_former_class_d12d_witness :
   xv_exec_valid xv_apollo_params ex_schema ex_doc_d12d = false /\
   xv_r_variable_usages_allowed ex_schema ex_doc_d12d = false /\
-  xk_exec_valid (xk_single 0) xv_apollo_params ex_schema ex_doc_d12d = true /\
+  xk_old_exec_valid_nested_variable xv_apollo_params ex_schema ex_doc_d12d = true /\
   xv_all_rules xv_apollo_params ex_schema
     [ DOperation OpQuery None [ {| v_name := ex_v; v_ty := TNamed xs_Int; v_default := None; v_dirs := [] |} ] []
         [ SField None ex_f [ (ex_a, VList [VVar ex_v]) ] [] [] ] ].
